@@ -437,6 +437,18 @@ func checkB5(c *Ctx, pr *prioRoles, strict bool) {
 	if !(val.Op == "bin" && val.Name == "-" && isIdx(val.Args[0], "strategic") && isIdx(val.Args[1], "actual")) {
 		problems = append(problems, fmt.Sprintf("top-up assigns %s to tactic[%s], not strategic[%s] - actual[%s]", val, k, k, k))
 	}
+	// every registered priority is topped up: the key visits the registered list (a filtered list of
+	// an earlier round leaves the others with the allotment the reset gave them: none)
+	if !strict {
+		// (capacity does not depend on it: fewer priorities topped up is a smaller allotment)
+	} else if base, okr := rangeElem(w.Key); !okr {
+		problems = append(problems, "the top-up key "+k+" is not the element of a list being visited")
+	} else {
+		bs := p.upParam(base, 0)
+		if _, path, okp := bs.FieldPath(); !okp || path[len(path)-1] != "priorities" {
+			problems = append(problems, "the top-up visits "+bs.String()+", not the list of registered priorities: a priority outside that list gets no first-phase allotment although it is below its share")
+		}
+	}
 	// guard: actual[k] <= strategic[k]
 	guarded := false
 	rejectsOnlyWhenAbove := true
@@ -743,7 +755,16 @@ func checkB11(c *Ctx, pr *prioRoles) {
 						l, r := deepStrip(cm.L), deepStrip(cm.R)
 						// value of the same range element == 0
 						sameElem := func(x *Sym) bool {
-							return x.Op == "extract" && x.Name == "2" && k.Op == "extract" && k.Name == "1" && x.Args[0].String() == k.Args[0].String()
+							if !(x.Op == "extract" && x.Name == "2" && k.Op == "extract" && k.Name == "1" && x.Args[0].String() == k.Args[0].String()) {
+								return false
+							}
+							// ... of a range over the counters themselves (the value tested is actual[k])
+							nx := x.Args[0]
+							if nx.Op == "next" && len(nx.Args) == 1 && nx.Args[0].Op == "range" && len(nx.Args[0].Args) == 1 {
+								_, path, okp := nx.Args[0].Args[0].FieldPath()
+								return okp && path[len(path)-1] == "actual"
+							}
+							return false
 						}
 						if (sameElem(l) && r.String() == "0") || (sameElem(r) && l.String() == "0") {
 							zero = true
